@@ -73,6 +73,7 @@ type txConfig struct {
 	paths      []string
 	vals       []string
 	children   int
+	parentOf   []int // parent of child i (-1 = the block trie); nil = all children hang under the block trie
 	opsPerKid  int
 	directOps  bool
 	depth      int
@@ -184,35 +185,86 @@ func viewOf(t *util.MerklePatriciaTrie, model map[string]string, paths []string)
 	return tmp.Observe(paths)
 }
 
+// node returns trie, model and (for children) the child record of participant i (-1 = block trie).
+func (w *txWorld) node(i int) (*util.MerklePatriciaTrie, map[string]string, *child) {
+	if i < 0 {
+		return w.B, w.model, nil
+	}
+	return w.kids[i].t, w.kids[i].model, w.kids[i]
+}
+
+func (c txConfig) parent(i int) int {
+	if i < 0 || len(c.parentOf) == 0 {
+		return -1
+	}
+	return c.parentOf[i]
+}
+
+// fresh: every link from participant i up to the block trie is up to date (each start root equals
+// its parent's current root) and nothing on the chain is broken: only then is i's view defined.
+func (w *txWorld) fresh(i int, c txConfig) bool {
+	for i >= 0 {
+		k := w.kids[i]
+		if k == nil || k.broken {
+			return false
+		}
+		pt, _, _ := w.node(c.parent(i))
+		if !bytes.Equal(k.startRoot, pt.GetRoot()) {
+			return false
+		}
+		i = c.parent(i)
+	}
+	return true
+}
+
+func (w *txWorld) fingerprints() map[int]string {
+	fp := map[int]string{-1: deepFingerprint(w.B)}
+	for i, k := range w.kids {
+		if k != nil {
+			fp[i] = deepFingerprint(k.t)
+		}
+	}
+	return fp
+}
+
+func who(i int) string {
+	if i < 0 {
+		return "the block trie"
+	}
+	return fmt.Sprintf("T%d", i)
+}
+
 func (w *txWorld) apply(e txEvent, c txConfig, judge bool) (fail string) {
 	defer func() {
 		if r := recover(); r != nil {
 			fail = fmt.Sprintf("panic: %v", r)
 		}
 	}()
-	var before string
-	bRoot := w.B.GetRoot()
+	var before map[int]string
 	if judge {
-		before = deepFingerprint(w.B)
+		before = w.fingerprints()
 	}
-	bMustBeUntouched := false
+	changed := map[int]bool{} // participants this event is allowed to change
 	switch {
 	case e.K == 'o':
-		k := &child{model: copyMap(w.model), startRoot: w.B.GetRoot()}
-		k.tc = statecache.NewTransactionCache(w.bc)
-		k.t = util.NewMerklePatriciaTrie(util.NewLevelNodeDB(util.NewMemoryNodeDB(), w.B.GetNodeDB(), false), w.B.GetVersion(), w.B.GetRoot(), k.tc)
-		w.kids[e.Child] = k
-		bMustBeUntouched = true
-	case e.K == 'I' || e.K == 'D':
-		t, m := w.B, w.model
-		var k *child
-		if e.Child >= 0 {
-			k = w.kids[e.Child]
-			t, m = k.t, k.model
-			k.nops++
-			bMustBeUntouched = true
+		p := c.parent(e.Child)
+		pt, pm, _ := w.node(p)
+		k := &child{model: copyMap(pm), startRoot: pt.GetRoot()}
+		if p < 0 {
+			k.tc = statecache.NewTransactionCache(w.bc)
+		} else {
+			k.tc = statecache.NewEmpty()
 		}
-		stale := k != nil && !bytes.Equal(k.startRoot, w.B.GetRoot())
+		k.t = util.NewMerklePatriciaTrie(util.NewLevelNodeDB(util.NewMemoryNodeDB(), pt.GetNodeDB(), false), pt.GetVersion(), pt.GetRoot(), k.tc)
+		w.kids[e.Child] = k
+		changed[e.Child] = true
+	case e.K == 'I' || e.K == 'D':
+		t, m, k := w.node(e.Child)
+		changed[e.Child] = true
+		if k != nil {
+			k.nops++
+		}
+		defined := e.Child < 0 || w.fresh(e.Child, c)
 		var err error
 		if e.K == 'I' {
 			_, err = t.Insert(util.Path(e.P), val(e.V))
@@ -221,9 +273,9 @@ func (w *txWorld) apply(e txEvent, c txConfig, judge bool) (fail string) {
 		}
 		_, present := m[e.P]
 		switch {
-		case k != nil && (stale || k.broken):
-			// the parent moved on underneath this child: its own answers are not defined by
-			// the property, only that the parent stays untouched
+		case !defined:
+			// a trie above this child moved on underneath it: its own answers are not defined by
+			// the property, only that everybody else stays untouched
 			if err != nil && err != util.ErrValueNotPresent {
 				k.broken = true
 			}
@@ -251,53 +303,67 @@ func (w *txWorld) apply(e txEvent, c txConfig, judge bool) (fail string) {
 		}
 	case e.K == 'm':
 		k := w.kids[e.Child]
-		kRoot := k.t.GetRoot()
-		err := w.B.MergeMPTChanges(k.t)
+		p := c.parent(e.Child)
+		pt, _, pk := w.node(p)
+		pRoot, kRoot := pt.GetRoot(), k.t.GetRoot()
+		err := pt.MergeMPTChanges(k.t)
 		switch {
-		case bytes.Equal(bRoot, kRoot):
+		case bytes.Equal(pRoot, kRoot):
 			// same root: nothing to publish
 			if err != nil {
-				return fmt.Sprintf("merge of a child with the parent's root returned %v", err)
+				return fmt.Sprintf("merge of a child with its parent's root returned %v", err)
 			}
-			bMustBeUntouched = true
-		case k.broken:
-			// an operation of this child failed while the parent was elsewhere (the parent physically
-			// removes its own superseded nodes): the child's content is not defined by the property.
-			// Whatever the merge decides, the exploration does not continue from here.
+		case k.broken || (pk != nil && pk.broken):
+			// an operation failed while a trie above was elsewhere (a parent physically removes its
+			// own superseded nodes): the content is not defined by the property. Whatever the merge
+			// decides, the exploration does not continue from here.
 			w.cut = true
-			if err != nil {
-				bMustBeUntouched = true
-			} else {
-				w.model = nil
+			if err == nil {
+				changed[p] = true
 			}
-		case bytes.Equal(k.startRoot, bRoot):
+		case bytes.Equal(k.startRoot, pRoot):
 			if err != nil {
 				return fmt.Sprintf("merge of an up-to-date child was rejected: %v", err)
 			}
 			k.tc.Commit()
-			w.model = copyMap(k.model)
-			if !bytes.Equal(w.B.GetRoot(), kRoot) {
-				return fmt.Sprintf("after merge parent root %x != child root %x", w.B.GetRoot(), kRoot)
+			if p < 0 {
+				w.model = copyMap(k.model)
+			} else {
+				pk.model = copyMap(k.model)
+			}
+			changed[p] = true
+			if !bytes.Equal(pt.GetRoot(), kRoot) {
+				return fmt.Sprintf("after merge %s has root %x, the merged child had %x", who(p), pt.GetRoot(), kRoot)
 			}
 		default:
 			if err == nil {
-				return "merge of a stale child (parent moved on since it was opened) was accepted"
+				return fmt.Sprintf("merge of a stale child (%s moved on since the child was opened) was accepted", who(p))
 			}
-			bMustBeUntouched = true
 		}
 		w.kids[e.Child] = nil
+		changed[e.Child] = true
 	case e.K == 'x':
 		w.kids[e.Child] = nil
-		bMustBeUntouched = true
+		changed[e.Child] = true
 	}
 	if judge {
-		if bMustBeUntouched {
-			if after := deepFingerprint(w.B); after != before {
-				return "parent changed by an event that must not touch it: " + lineDiff(before, after)
+		after := w.fingerprints()
+		for i, b := range before {
+			if changed[i] {
+				continue
+			}
+			if a, ok := after[i]; ok && a != b {
+				return fmt.Sprintf("%s was changed by an event (%v) that must not touch it: %s", who(i), e, lineDiff(b, a))
 			}
 		}
-		if f := storeSelfConsistent(w.B); f != "" {
-			return "parent: " + f
+		for i := -1; i < len(w.kids); i++ {
+			if i >= 0 && w.kids[i] == nil {
+				continue
+			}
+			t, _, _ := w.node(i)
+			if f := storeSelfConsistent(t); f != "" {
+				return who(i) + ": " + f
+			}
 		}
 	}
 	return ""
@@ -305,10 +371,10 @@ func (w *txWorld) apply(e txEvent, c txConfig, judge bool) (fail string) {
 
 func (w *txWorld) observe(c txConfig) string {
 	if f := viewOf(w.B, w.model, c.paths); f != "" {
-		return "parent view: " + f
+		return "block trie view: " + f
 	}
 	for i, k := range w.kids {
-		if k == nil || k.broken || !bytes.Equal(k.startRoot, w.B.GetRoot()) {
+		if k == nil || !w.fresh(i, c) {
 			continue
 		}
 		if f := viewOf(k.t, k.model, c.paths); f != "" {
@@ -320,7 +386,7 @@ func (w *txWorld) observe(c txConfig) string {
 	}
 	// reading must not have changed what isolation protects either
 	if f := storeSelfConsistent(w.B); f != "" {
-		return "parent after reads: " + f
+		return "block trie after reads: " + f
 	}
 	return ""
 }
@@ -400,13 +466,36 @@ func runTx(rep *rt.Report, c txConfig, deadline time.Time) {
 					n++
 				}
 			}
+			isOpen := func(child int) bool {
+				o := false
+				for _, x := range h {
+					if evs[x].Child == child {
+						switch evs[x].K {
+						case 'o':
+							o = true
+						case 'm', 'x':
+							o = false
+						}
+					}
+				}
+				return o
+			}
 			switch e.K {
 			case 'o':
-				return !open
+				p := c.parent(e.Child)
+				return !open && (p < 0 || isOpen(p))
 			case 'I', 'D':
 				return open && n < c.opsPerKid
 			default:
-				return open
+				if !open {
+					return false
+				}
+				for j := 0; j < c.children; j++ {
+					if c.parent(j) == e.Child && isOpen(j) {
+						return false // a trie with an open child of its own is not merged or discarded
+					}
+				}
+				return true
 			}
 		},
 		Run: func(h []uint8) seq.Outcome {
@@ -449,6 +538,8 @@ func C03(tier rt.Tier) int {
 			{name: "nested-2children-pnodedb", persistent: true, initial: map[string]string{"aa": "p", "aaab": "p"}, paths: nested[:6], vals: []string{"x"}, children: 2, opsPerKid: 2, directOps: false, depth: 6},
 			{name: "empty-base-1child", initial: nil, paths: pfPaths, vals: []string{"x", "y"}, children: 1, opsPerKid: 3, directOps: true, depth: 5},
 			// a child that overwrites and then restores what an earlier write of the same block created, plus one more change
+			// a transaction inside a transaction: T1 is a child of T0
+			{name: "nested-child-of-child", initial: map[string]string{"0a1b": "p"}, paths: pfPaths[:3], vals: []string{"x"}, children: 2, parentOf: []int{-1, 0}, opsPerKid: 2, directOps: true, depth: 6},
 			{name: "restore-within-block", initial: map[string]string{"0b22": "p"}, paths: pfPaths[:2], vals: []string{"x", "y"}, children: 1, opsPerKid: 3, directOps: true, depth: 7},
 		}
 	} else {
